@@ -46,7 +46,7 @@ type Entry struct {
 	Kind string `json:"k"` // "rec" | "fail" | "eof" | "fatal" | "panic" | "cap"
 	JSON string `json:"j,omitempty"`
 	Sum  string `json:"s,omitempty"`
-	Msg  string `json:"-"`
+	Msg  string `json:"m,omitempty"` // error text: compared only between runs of one implementation
 }
 
 type Transcript []Entry
@@ -93,6 +93,11 @@ func CheckRetained() []string {
 	retainedAll = retainedAll[:0]
 	return bad
 }
+
+// normMsg makes an error text valid UTF-8 the way encoding/json does (U+FFFD per invalid byte), so
+// that a text that went through a JSON file (fresh-process runs) compares equal to the same text
+// kept in memory.
+func normMsg(s string) string { return string([]rune(s)) }
 
 // EqualMsg is Equal plus the error texts: only for comparing runs of ONE implementation with each
 // other (determinism), never against a model.
@@ -302,7 +307,7 @@ func (c *Compiled) RunRealCtx(ctx *transformctx.Ctx, name string, input []byte) 
 	}()
 	t, err := c.Schema.NewTransform(name, bytes.NewReader(input), ctx)
 	if err != nil {
-		return Transcript{{Kind: "fatal", Msg: err.Error()}}
+		return Transcript{{Kind: "fatal", Msg: normMsg(err.Error())}}
 	}
 	for i := 0; i < maxReads(input); i++ {
 		b, err := t.Read()
@@ -314,11 +319,11 @@ func (c *Compiled) RunRealCtx(ctx *transformctx.Ctx, name string, input []byte) 
 			}
 			tr = append(tr, e)
 		case errs.IsErrTransformFailed(err):
-			tr = append(tr, Entry{Kind: "fail", Msg: err.Error()})
+			tr = append(tr, Entry{Kind: "fail", Msg: normMsg(err.Error())})
 		case err == io.EOF:
 			return append(tr, Entry{Kind: "eof"})
 		default:
-			return append(tr, Entry{Kind: "fatal", Msg: err.Error()})
+			return append(tr, Entry{Kind: "fatal", Msg: normMsg(err.Error())})
 		}
 	}
 	return append(tr, Entry{Kind: "cap"})
@@ -334,7 +339,7 @@ func (c *Compiled) RunReal(input []byte, ext map[string]string) (tr Transcript) 
 	}()
 	t, err := c.Schema.NewTransform("in", bytes.NewReader(input), &transformctx.Ctx{ExternalProperties: ext})
 	if err != nil {
-		return Transcript{{Kind: "fatal", Msg: err.Error()}}
+		return Transcript{{Kind: "fatal", Msg: normMsg(err.Error())}}
 	}
 	for i := 0; i < maxReads(input); i++ {
 		b, err := t.Read()
@@ -348,11 +353,11 @@ func (c *Compiled) RunReal(input []byte, ext map[string]string) (tr Transcript) 
 			}
 			tr = append(tr, e)
 		case errs.IsErrTransformFailed(err):
-			tr = append(tr, Entry{Kind: "fail", Msg: err.Error()})
+			tr = append(tr, Entry{Kind: "fail", Msg: normMsg(err.Error())})
 		case err == io.EOF:
 			return append(tr, Entry{Kind: "eof"})
 		default:
-			return append(tr, Entry{Kind: "fatal", Msg: err.Error()})
+			return append(tr, Entry{Kind: "fatal", Msg: normMsg(err.Error())})
 		}
 	}
 	return append(tr, Entry{Kind: "cap"})
@@ -368,7 +373,7 @@ func (c *Compiled) RunUnretained(input []byte, ext map[string]string) (tr Transc
 	}()
 	t, err := c.Schema.NewTransform("in", bytes.NewReader(input), &transformctx.Ctx{ExternalProperties: ext})
 	if err != nil {
-		return Transcript{{Kind: "fatal", Msg: err.Error()}}
+		return Transcript{{Kind: "fatal", Msg: normMsg(err.Error())}}
 	}
 	for i := 0; i < maxReads(input); i++ {
 		b, err := t.Read()
@@ -380,11 +385,11 @@ func (c *Compiled) RunUnretained(input []byte, ext map[string]string) (tr Transc
 			}
 			tr = append(tr, e)
 		case errs.IsErrTransformFailed(err):
-			tr = append(tr, Entry{Kind: "fail", Msg: err.Error()})
+			tr = append(tr, Entry{Kind: "fail", Msg: normMsg(err.Error())})
 		case err == io.EOF:
 			return append(tr, Entry{Kind: "eof"})
 		default:
-			return append(tr, Entry{Kind: "fatal", Msg: err.Error()})
+			return append(tr, Entry{Kind: "fatal", Msg: normMsg(err.Error())})
 		}
 	}
 	return append(tr, Entry{Kind: "cap"})
@@ -419,12 +424,12 @@ func RunInterleaved(c1 *Compiled, in1 []byte, ext1 map[string]string, c2 *Compil
 			}
 			*tr = append(*tr, e)
 		case errs.IsErrTransformFailed(err):
-			*tr = append(*tr, Entry{Kind: "fail", Msg: err.Error()})
+			*tr = append(*tr, Entry{Kind: "fail", Msg: normMsg(err.Error())})
 		case err == io.EOF:
 			*tr = append(*tr, Entry{Kind: "eof"})
 			*done = true
 		default:
-			*tr = append(*tr, Entry{Kind: "fatal", Msg: err.Error()})
+			*tr = append(*tr, Entry{Kind: "fatal", Msg: normMsg(err.Error())})
 			*done = true
 		}
 	}
@@ -469,7 +474,7 @@ func (c *Compiled) RunOwn(input []byte, ext map[string]string, memoOff bool) (tr
 	ctx := &transformctx.Ctx{ExternalProperties: ext}
 	c.cap.reader = nil
 	if _, err := c.Schema.NewTransform("in", bytes.NewReader(input), ctx); err != nil {
-		return Transcript{{Kind: "fatal", Msg: err.Error()}}
+		return Transcript{{Kind: "fatal", Msg: normMsg(err.Error())}}
 	}
 	reader, decl := c.cap.reader, c.cap.decl
 	if reader == nil || decl == nil {
@@ -490,27 +495,27 @@ func (c *Compiled) RunOwn(input []byte, ext map[string]string, memoOff bool) (tr
 			case err == io.EOF:
 				return append(tr, Entry{Kind: "eof"})
 			case errs.IsErrTransformFailed(err) || reader.IsContinuableError(err):
-				tr = append(tr, Entry{Kind: "fail", Msg: err.Error()})
+				tr = append(tr, Entry{Kind: "fail", Msg: normMsg(err.Error())})
 				continue
 			default:
-				return append(tr, Entry{Kind: "fatal", Msg: err.Error()})
+				return append(tr, Entry{Kind: "fatal", Msg: normMsg(err.Error())})
 			}
 		}
 		pc := transform.NewParseCtx(ctx, Funcs, nil)
 		pc.VerifSetDisableTransformCache(memoOff)
 		res, err := pc.ParseNode(n, decl)
 		if err != nil {
-			tr = append(tr, Entry{Kind: "fail", Msg: err.Error()})
+			tr = append(tr, Entry{Kind: "fail", Msg: normMsg(err.Error())})
 			continue
 		}
 		b, err := json.Marshal(res)
 		if err != nil {
 			// a marshal error is returned by the ingester as is; the reader decides
 			if errs.IsErrTransformFailed(err) || reader.IsContinuableError(err) {
-				tr = append(tr, Entry{Kind: "fail", Msg: err.Error()})
+				tr = append(tr, Entry{Kind: "fail", Msg: normMsg(err.Error())})
 				continue
 			}
-			return append(tr, Entry{Kind: "fatal", Msg: err.Error()})
+			return append(tr, Entry{Kind: "fatal", Msg: normMsg(err.Error())})
 		}
 		sum, _ := customfuncs.UUIDv3(nil, idr.JSONify2(n))
 		tr = append(tr, Entry{Kind: "rec", JSON: string(b), Sum: sum})
